@@ -231,7 +231,10 @@ namespace ratio
         bool_expr xp = new bool_item(*this, get_sat_core().new_disj(lits));
 
         if (xprs.size() > 1) // we create a new var flaw..
+        {
+            lits.push_back(!xp->l); // the disjunction itself might not need to hold (e.g., when it is nested into another expression)..
             new_flaw(*new disj_flaw(*this, get_cause(), std::move(lits)));
+        }
 
         return xp;
     }
